@@ -135,6 +135,7 @@ func verifRunC07(c *verifsim.Ctx) {
 		"discard-conns", "hotplug-connect", "hotplug-add-slot", "transition-ubuntu-core", "prerequisites", "prerequisites", "prerequisites",
 		"update-gadget-assets", "update-gadget-assets", "link-snap", "mount-snap", "download-snap", "nop", "unlink-snap"}
 	pFail := []int{0, 1, 3}[c.Draw("cfg.pfail", 3)]
+	retries := c.Draw("cfg.retries", 2) == 1
 	st.Lock()
 	nch := 2 + c.Draw("nchanges", 5)
 	var chgs []*state.Change
@@ -243,6 +244,7 @@ func verifRunC07(c *verifsim.Ctx) {
 
 	stall := 0
 	last := ""
+	retried := map[string]int{}
 	for step := 0; ; step++ {
 		if step > 3000 {
 			c.Violate("C07/livelock", "changes did not finish within 3000 simulator events")
@@ -312,8 +314,15 @@ func verifRunC07(c *verifsim.Ctx) {
 		if p.which != "cleanup" && pFail > 0 && c.Chance("fail", pFail, 12) {
 			res = errors.New("boom")
 			c.Count("fault:handler-error")
+		} else if p.which != "cleanup" && retries && retried[p.label] < 2 && c.Chance("retry", 1, 8) {
+			retried[p.label]++
+			// (hooks, auto-connect, prerequisites really answer like this): the task
+			// stays Doing/Undoing and is run again later, exclusion still applies then
+			res = &state.Retry{After: []time.Duration{0, time.Second, 2 * time.Minute}[c.Draw("retry-after", 3)]}
+			c.Count("probe:handler-asked-to-be-retried")
 		}
 		c.Logf("end-%s %s -> %v", p.which, p.label, res)
+		stall = 0 // a handler ran: that is progress even when it asks to be retried
 		p.ch <- res
 		synctest.Wait()
 	}
